@@ -47,6 +47,9 @@ fn main() {
     let cfg = Cfg::from_args(&args[2.min(args.len())..]);
     let code = match cmd.as_str() {
         "noop" => 0,
+        // deliberately wrong code, to show that the sanitizer builds and the report collection of
+        // ./check see what they are there to see (never part of a registered check)
+        "san-selftest" => san_selftest(args.get(2).map_or("", String::as_str)),
         "c05" => c05::run(&cfg, false),
         "c18" => c05::run(&cfg, true),
         "c08" => c08::run(&cfg),
@@ -107,4 +110,45 @@ fn main() {
         }
     };
     std::process::exit(code);
+}
+
+
+#[allow(static_mut_refs)]
+fn san_selftest(which: &str) -> i32 {
+    match which {
+        "race" => {
+            static mut COUNTER: u64 = 0;
+            let hs: Vec<_> = (0..2)
+                .map(|_| {
+                    std::thread::spawn(|| {
+                        for _ in 0..100_000 {
+                            unsafe {
+                                let p = std::ptr::addr_of_mut!(COUNTER);
+                                p.write_volatile(p.read_volatile() + 1);
+                            }
+                        }
+                    })
+                })
+                .collect();
+            for h in hs {
+                let _ = h.join();
+            }
+            println!("counter = {}", unsafe { std::ptr::addr_of!(COUNTER).read_volatile() });
+            0
+        }
+        "uaf" => {
+            let b = Box::new([7u8; 64]);
+            let p = Box::into_raw(b);
+            let v = unsafe {
+                drop(Box::from_raw(p));
+                std::ptr::read_volatile(p.cast::<u8>().add(3))
+            };
+            println!("read {v}");
+            0
+        }
+        _ => {
+            eprintln!("san-selftest race|uaf");
+            2
+        }
+    }
 }
